@@ -987,3 +987,112 @@ func VerifUserMethod(n int) {
 		verifExpectCovers(out, "C15-param", cls("parameter-type-misses-a-call-site"), 2, []int{s.ka, s.kb, base.VkFloat})
 	}
 }
+
+// ---- C16: user classes: resolution, inheritance, visibility ----
+
+var verifClassNames = [][]string{{"Aa", "Bb", "Cc"}, {"Base", "Bb", "Cc"}, {"Aa", "Relation", "Cc"}, {"Aa", "Bb", "Table"}}
+
+func verifIsTypeName(s string) bool {
+	switch s {
+	case "NilClass", "Integer", "String", "Bool", "Float", "Symbol":
+		return true
+	}
+	return false
+}
+
+// VerifClasses: a three-class chain C2 < C1 < C0 with a module (included, extended or unused),
+// a `class << self` method on C0, a method foo defined at a solver... (concretised) level with
+// a visibility keyword, a public method bar in C1 after C0's visibility section, an
+// initialize with one parameter on C0. Probes: RECV.new(1).foo, RECV.cm, the module method,
+// an undefined method, RECV.new (no argument), C1.new(1).bar. Reference: Ruby's ancestor walk
+// and visibility rules. names selects the class-name triple (collisions with configured
+// short names).
+func VerifClasses(n int) {
+	names := verifClassNames[n]
+	level := verifapi.Concrete(verifapi.Int("level", 0, 2))
+	visHi, modHi := 2, 2
+	if n > 0 { // collision jobs: visibility and module variants are covered by job 0
+		visHi, modHi = 0, 1
+	}
+	vis := verifapi.Concrete(verifapi.Int("vis", 0, visHi)) // 0 public (no keyword), 1 private, 2 protected
+	recv := verifapi.Concrete(verifapi.Int("recv", 0, 2))
+	mod := verifapi.Concrete(verifapi.Int("module", 0, modHi)) // 0 none, 1 include, 2 extend
+	s := verifInstallSym("a")
+	verifapi.WitnessList("Sym.a", verifKN(s.ka))
+	visKw := []string{"", "private\n", "protected\n"}[vis]
+	fooDef := visKw + "def foo\nSym.a\nend\n"
+	src := "module Mm\ndef mod_m\n1\nend\nend\n"
+	src += "class " + names[0] + "\n"
+	if mod == 1 {
+		src += "include Mm\n"
+	}
+	if mod == 2 {
+		src += "extend Mm\n"
+	}
+	src += "def initialize(x)\n@x = x\nend\nclass << self\ndef cm\n\"s\"\nend\nend\n"
+	if level == 0 {
+		src += fooDef
+	}
+	src += "end\n"
+	src += "class " + names[1] + " < " + names[0] + "\ndef bar\n2\nend\n"
+	if level == 1 {
+		src += fooDef
+	}
+	src += "end\n"
+	src += "class " + names[2] + " < " + names[1] + "\n"
+	if level == 2 {
+		src += fooDef
+	}
+	src += "end\n"
+	base0 := verifCountLines(src)
+	r := names[recv]
+	src += "dbtp " + r + ".new(1).foo\n"      // base0+1
+	src += "dbtp " + r + ".cm\n"              // +2
+	if mod == 2 {
+		src += "dbtp " + r + ".mod_m\n" // +3
+	} else {
+		src += "dbtp " + r + ".new(1).mod_m\n"
+	}
+	src += "dbtp " + r + ".new(1).nope\n" // +4
+	src += "dbtp " + r + ".new\n"         // +5
+	src += "dbtp " + names[1] + ".new(1).bar\n" // +6
+	verifapi.Witness("src", src)
+	out := verifRun(src)
+	verifapi.Reach("ran")
+	shape := "names-" + names[0] + "-" + names[1] + "-" + names[2] + "/foo-in-level" + verifItoa(level) + "-" + []string{"public", "private", "protected"}[vis] + "/receiver-level" + verifItoa(recv) + "/module-" + []string{"none", "included", "extended"}[mod]
+	collide := "fresh-names"
+	if n > 0 {
+		collide = "name-collides-with-configured-class"
+	}
+	// foo: callable iff the receiver's class is at or below the defining level and foo is public
+	callable := recv >= level && vis == 0
+	if callable {
+		verifExpect(out, "C16-foo", "C16/inherited-or-own-public-method-not-resolved/"+collide, base0+1, verifKN(s.ka))
+	} else {
+		verifapi.Witness("C16-foo-err.row", verifItoa(base0+1))
+		verifapi.Witness("C16-foo-err.demand", "diagnostic-not-a-type")
+		what := "undefined-method-not-reported"
+		if recv >= level {
+			what = []string{"", "private-method-call-with-receiver-not-reported", "protected-method-call-from-outside-not-reported"}[vis]
+		}
+		verifapi.Classify("C16/" + what + "/" + collide)
+		l := verifLine(out, base0+1)
+		verifapi.Assert(l != "" && !verifIsTypeName(l), "C16-foo-err")
+	}
+	verifExpect(out, "C16-cm", "C16/class-method-from-class-self-not-inherited/"+collide, base0+2, "String")
+	if mod != 0 {
+		verifExpect(out, "C16-mod", "C16/module-method-not-resolved/"+[]string{"", "included", "extended"}[mod]+"/"+collide, base0+3, "Integer")
+	}
+	verifapi.Witness("C16-nope.row", verifItoa(base0+4))
+	verifapi.Witness("C16-nope.demand", "diagnostic-not-a-type")
+	verifapi.Classify("C16/undefined-method-not-reported/" + collide)
+	ln := verifLine(out, base0+4)
+	verifapi.Assert(ln != "" && !verifIsTypeName(ln), "C16-nope")
+	verifapi.Witness("C16-new.row", verifItoa(base0+5))
+	verifapi.Witness("C16-new.demand", "diagnostic-not-a-type")
+	verifapi.Classify("C16/new-not-checked-against-initialize/" + collide)
+	lnew := verifLine(out, base0+5)
+	verifapi.Assert(lnew != "" && lnew != r && !verifIsTypeName(lnew), "C16-new")
+	verifExpect(out, "C16-bar", "C16/visibility-section-leaks-into-another-class/"+collide, base0+6, "Integer")
+	verifapi.Witness("shape", shape)
+}
